@@ -278,6 +278,49 @@ def get_iface(w, ref):
     return i
 
 
+def get_iface_retained(w, ref):
+    """the Interface object of a port, kept across calls like a user's variable would be (sessions that retain
+    handles); only for ports, not for sub-interfaces"""
+    if ref.get('sub') or not w.cfg.get('retain_handles'):
+        return get_iface(w, ref)
+    key = '%s/%s' % (ref['node'], ref['if'])
+    h = w.if_handles.get(key)
+    if h is not None:
+        try:
+            w.topo.graph_model.get_node_properties(node_id=h.node_id)
+            fresh = get_iface(w, ref)
+            if fresh.node_id == h.node_id:
+                return h
+        except SkipStep:
+            raise
+        except Exception:
+            pass
+        del w.if_handles[key]
+    h = get_iface(w, ref)
+    w.if_handles[key] = h
+    return h
+
+
+def get_node_service_retained(w, node, svc):
+    """handle of a node-level service, kept across calls in sessions that retain handles"""
+    n = get_node(w, node)
+    fresh = n.network_services.get(svc)
+    _exists_or_skip_(fresh is not None)
+    if not w.cfg.get('retain_handles'):
+        return fresh
+    key = 'ns:%s/%s' % (node, svc)
+    h = w.if_handles.get(key)
+    if h is not None and h.node_id == fresh.node_id:
+        return h
+    w.if_handles[key] = fresh
+    return fresh
+
+
+def _exists_or_skip_(cond):
+    if not cond:
+        raise SkipStep()
+
+
 def get_service(w, name, fresh=False):
     if not fresh and w.cfg.get('retain_handles') and name in w.handles:
         h = w.handles[name]
@@ -575,15 +618,38 @@ def g_add_child_interface(w, rng, st):
         cousins = [c for c in cousins if c not in existing]
         if cousins and rng.random() < 0.6:
             pool = cousins
-    return {'iface': r, 'name': pick_name(rng, pool, existing), 'vlan': str(rng.choice([100, 101, 102, 103])),
-            'id': maybe_id(w, rng, st)}
+    s = {'iface': r, 'name': pick_name(rng, pool, existing), 'vlan': str(rng.choice([100, 101, 102, 103])),
+         'id': maybe_id(w, rng, st)}
+    if rng.random() < 0.35:
+        # more label fields than the vlan, and other properties, given at creation (read back afterwards, C02)
+        s['xlabels'] = dict(rng.sample([('ipv4', '192.168.1.%d' % rng.randint(1, 9)), ('mac', '0C:42:A1:EA:C7:5%d' % rng.randint(0, 9)),
+                                        ('inner_vlan', str(rng.randint(10, 19))), ('device_name', 'dev%d' % rng.randint(1, 3)),
+                                        ('ipv6', '2001:db8::%d' % rng.randint(1, 9))], rng.randint(1, 2)))
+        if rng.random() < 0.5:
+            s['xkw'] = {'capacities': {'_t': 'Capacities', 'a': {'bw': rng.choice([1, 10, 25])}}}
+    return s
 
 
 @op('add_child_interface', 'add')
 def x_add_child_interface(w, s, st, info):
     from fim.slivers.capacities_labels import Labels
-    i = get_iface(w, s['iface'])
-    i.add_child_interface(name=s['name'], node_id=s['id'], labels=Labels(vlan=s['vlan']))
+    i = get_iface_retained(w, s['iface'])
+    note_handle(w, info, i, st)
+    xl = s.get('xlabels') or {}
+    ch = i.add_child_interface(name=s['name'], node_id=s['id'], labels=Labels(vlan=s['vlan'], **xl),
+                               **build_ctor_kwargs(s.get('xkw')))
+    if ch is not None and (xl or s.get('xkw')):
+        check_creation_kwargs(w, ch, s.get('xkw'), 'interface')
+        try:
+            got = ch.get_property('labels')
+            gotd = json.loads(got.to_json()) if got is not None else {}
+        except Exception as ex:
+            gotd = {'<raised>': repr(ex)}
+        for k, v in dict(xl, vlan=s['vlan']).items():
+            if gotd.get(k) != v:
+                w.flag('C02', 'prop_set_get', {'kind': 'interface', 'name': 'labels', 'via': 'creation', 'field': k},
+                       'sub-interface created with label %s=%r reads back labels %s' % (k, v, canon(gotd)[:200]))
+                break
 
 
 @op('peer', 'add')
@@ -772,7 +838,7 @@ def g_remove_child_interface(w, rng, st):
 
 @op('remove_child_interface', 'remove')
 def x_remove_child_interface(w, s, st, info):
-    i = get_iface(w, s['iface'])
+    i = get_iface_retained(w, s["iface"])
     kids = [c for c in st.child_cps(i.node_id) if st.name(c) == s['name']]
     _exists_or_skip(kids)
     # a connected sub-interface: its service-side port stays (only the link goes when it is left with one end)
@@ -907,9 +973,8 @@ def g_svc_add_interface(w, rng, st):
 @op('svc_add_interface', 'add')
 def x_svc_add_interface(w, s, st, info):
     from fim.slivers.interface_info import InterfaceType
-    n = get_node(w, s['node'])
-    sv = n.network_services.get(s['svc'])
-    _exists_or_skip(sv is not None)
+    sv = get_node_service_retained(w, s['node'], s['svc'])
+    note_handle(w, info, sv, st)
     sv.add_interface(name=s['name'], node_id=s['id'], itype=InterfaceType[s['itype']], **build_kwargs(s['kw']))
 
 
@@ -965,12 +1030,11 @@ def g_svc_remove_interface(w, rng, st):
 
 @op('svc_remove_interface', 'remove')
 def x_svc_remove_interface(w, s, st, info):
-    n = get_node(w, s['node'])
-    sv = n.network_services.get(s['svc'])
-    _exists_or_skip(sv is not None)
+    sv = get_node_service_retained(w, s['node'], s['svc'])
     cps = [c for c in st.cps_of_service(sv.node_id) if st.name(c) == s['name']]
     _exists_or_skip(cps)
     info['predict'] = predict_remove_owned(st, st.own_cp(cps[0]), links_of=st.own_cp(cps[0]))
+    note_handle(w, info, sv, st)
     sv.remove_interface(name=s['name'])
 
 
@@ -1087,7 +1151,14 @@ def check_handles(w, s, info, post, post_st):
             got = sorted(i.node_id for i in h.interface_list)
             want = sorted(post_st.cps_of_service(h.node_id)) if post_st.cls(h.node_id) == 'NetworkService' else \
                 sorted(post_st.child_cps(h.node_id))
-            if got != want:
+            if got != want and KIND.get(op_) != 'remove':
+                # C08 states the handle clause for removals; after a building call the handle's interface list is one
+                # of the read-only views, which list exactly the elements present in the model (C07)
+                w.flag('C07', 'views_exact', {'op': op_, 'view': 'handle.interface_list'},
+                       'after %s the interface list of the handle of %s (through which the call was made) reports %s, '
+                       'the model holds %s' % (op_, h.name, [post_st.name(i) if i in post_st.n else i for i in got],
+                                               [post_st.name(i) for i in want]))
+            elif got != want:
                 w.flag('C08', 'handle_fresh_equal', {'op': op_},
                        'after %s the handle of %s reports interfaces %s, a fresh lookup reports %s' %
                        (op_, h.name, [post_st.name(i) if i in post_st.n else i for i in got],
@@ -1278,6 +1349,17 @@ def failing_variants(w, rng, st):
         if len(two) == 2 and anyid:
             out.append({'template': 'dup_link_id', 'call': 'add_link', 'name': 'lX', 'ltype': 'Patch', 'ifs': two,
                         'id': rng.choice(anyid)})
+        if two:
+            for pos in (0, 1):
+                ifs = [two[0]]
+                ifs.insert(pos, {'raw': 'not-an-interface'})
+                out.append({'template': 'link_non_interface', 'pos': str(pos), 'call': 'add_link', 'name': 'lX',
+                            'ltype': 'Patch', 'ifs': ifs, 'id': nid()})
+                if w.bystander is not None:
+                    ifs = [two[0]]
+                    ifs.insert(pos, {'foreign': True})
+                    out.append({'template': 'link_foreign_interface', 'pos': str(pos), 'call': 'add_link', 'name': 'lX',
+                                'ltype': 'Patch', 'ifs': ifs, 'id': nid()})
         for n, x in node_services(st)[:2]:
             cps = st.cps_of_service(x)
             if cps:
@@ -1319,6 +1401,10 @@ def failing_variants(w, rng, st):
     if svcports:
         cp = rng.choice(svcports)
         bads.append(('service_port', {'svcport': st.name(st.service_of_cp(cp)[0]), 'if': st.name(cp)}, 'L2Bridge'))
+    # rejected for reasons other than a topology rule: not an interface at all, an interface of another model
+    bads.append(('not_an_interface', {'raw': rng.choice(['not-an-interface', 12])}, 'L2Bridge'))
+    if w.bystander is not None:
+        bads.append(('foreign_interface', {'foreign': True}, 'L2Bridge'))
     for why, badref, nstype in bads:
         goods = [{'node': a, 'if': b} for a, b, c in free if {'node': a, 'if': b} != badref and
                  not (nstype == 'L2PTP' and st.typ(c) == 'SharedPort')]
@@ -1331,6 +1417,12 @@ def failing_variants(w, rng, st):
                 out.append({'template': 'service_bad_interface', 'pos': '%s:%d/%d' % (why, i, n),
                             'call': 'add_network_service', 'name': fresh_svc, 'nstype': nstype, 'ifs': ifs, 'id': None,
                             'kw': {}})
+    if tops:
+        out.append({'template': 'connect_non_interface', 'call': 'connect_interface', 'svc': st.name(rng.choice(tops)),
+                    'iface': {'raw': 'not-an-interface'}})
+        if w.bystander is not None:
+            out.append({'template': 'connect_foreign_interface', 'call': 'connect_interface',
+                        'svc': st.name(rng.choice(tops)), 'iface': {'foreign': True}})
     if conn:
         a, b, _ = rng.choice(conn)
         out.append({'template': 'mirror_to_connected', 'call': 'add_port_mirror_service', 'name': fresh_svc,
@@ -1467,6 +1559,26 @@ def jprop_(props, name):
     return jprop(props, name)
 
 
+def special_ref(r):
+    return isinstance(r, dict) and ('svcport' in r or 'raw' in r or 'foreign' in r)
+
+
+def resolve_ref(w, r):
+    if 'svcport' in r:
+        sv = get_service(w, r['svcport'], fresh=True)
+        cand = [i for i in sv.interface_list if i.name == r['if']]
+        if not cand:
+            raise SkipStep()
+        return cand[0]
+    if 'raw' in r:
+        return r['raw']
+    if 'foreign' in r:
+        if w.bystander is None:
+            raise SkipStep()
+        return w.bystander.nodes['bystander'].components['nic1'].interface_list[0]
+    return get_iface(w, r)
+
+
 @op('failing', 'add')
 def g_failing(w, rng, st):
     vs = failing_variants(w, rng, st)
@@ -1503,19 +1615,16 @@ def x_failing(w, s, st, info):
     elif call == 'add_child_interface' and s.get('vlan') is None:
         i = get_iface(w, s['iface'])
         i.add_child_interface(name=s['name'], node_id=s['id'])
-    elif call == 'add_network_service' and any('svcport' in r for r in s['ifs']):
+    elif call == 'add_network_service' and any(special_ref(r) for r in s['ifs']):
         from fim.slivers.network_service import ServiceType
-        ifs = []
-        for r in s['ifs']:
-            if 'svcport' in r:
-                sv = get_service(w, r['svcport'], fresh=True)
-                cand = [i for i in sv.interface_list if i.name == r['if']]
-                if not cand:
-                    raise SkipStep()
-                ifs.append(cand[0])
-            else:
-                ifs.append(get_iface(w, r))
+        ifs = [resolve_ref(w, r) for r in s['ifs']]
         w.topo.add_network_service(name=s['name'], nstype=ServiceType[s['nstype']], interfaces=ifs, node_id=s['id'])
+    elif call == 'connect_interface' and special_ref(s['iface']):
+        get_service(w, s['svc'], fresh=True).connect_interface(resolve_ref(w, s['iface']))
+    elif call == 'add_link' and any(special_ref(r) for r in s.get('ifs', [])):
+        from fim.slivers.network_link import LinkType
+        w.topo.add_link(name=s['name'], node_id=s['id'], ltype=LinkType[s['ltype']],
+                        interfaces=[resolve_ref(w, r) for r in s['ifs']])
     elif call == 'set_properties_raw':
         from .w2_props import get_element
         e = get_element(w, s['kind'], s['ref'])
@@ -1543,7 +1652,7 @@ from . import w2_diff  # noqa: E402,F401
 from . import w2_rt  # noqa: E402,F401
 
 
-def twin_port_sequence(w, rng, st):
+def twin_port_sequence(w, rng, st, then_validate=False):
     """Two equally named sub-interfaces under two ports of one node, both connected to one service (legal; the
     service then holds two ports with one derived name - open finding F-C07-derived-port-name), then one of them
     disconnected: only runs that do not steer around that finding build this on purpose."""
@@ -1558,7 +1667,15 @@ def twin_port_sequence(w, rng, st):
         (c1, r1), (c2, r2) = rng.sample(refs, 2)
         svcs = [x for x in top_services(st) if st.typ(x) in ('L2Bridge', 'L2STS')]
         steps = []
-        if svcs:
+        if then_validate:
+            # a type whose interface count is bounded on both sides, holding exactly the two twins
+            names = [st.name(x) for x in st.of_class('NetworkService')]
+            sv = next((x for x in W.SVC_NAMES + ['s6', 's7'] if x not in names), None)
+            if sv is None:
+                return None
+            steps.append({'op': 'add_network_service', 'name': sv, 'nstype': rng.choice(['L2PTP', 'L2STS']), 'ifs': [],
+                          'id': None, 'kw': {}})
+        elif svcs:
             sv = st.name(rng.choice(svcs))
         else:
             names = [st.name(x) for x in st.of_class('NetworkService')]
@@ -1570,7 +1687,10 @@ def twin_port_sequence(w, rng, st):
         steps.append({'op': 'add_child_interface', 'iface': r2, 'name': 'twin', 'vlan': '111', 'id': None})
         steps.append({'op': 'connect_interface', 'svc': sv, 'iface': dict(r1, sub='twin')})
         steps.append({'op': 'connect_interface', 'svc': sv, 'iface': dict(r2, sub='twin')})
-        steps.append({'op': 'disconnect_interface', 'svc': sv, 'iface': dict(rng.choice([r1, r2]), sub='twin')})
+        if then_validate:
+            steps.append({'op': 'validate'})
+        else:
+            steps.append({'op': 'disconnect_interface', 'svc': sv, 'iface': dict(rng.choice([r1, r2]), sub='twin')})
         w.stats.inc('probe.twin_port_sequences')
         return steps
     return None
